@@ -21,8 +21,10 @@ def main():
         print(json.dumps(_jsonable(res)))
         return 0
     data = req["data"]
-    SR.run_priors(data["desc"], data["algo"])
-    fails = SR.concrete_failures(data["desc"], data["algo"], data["policy"], H.cost_unjson(data["costs"]), set(data["flags"]))
+    if data.get("prior") != "inplace":
+        SR.run_priors(data["desc"], data["algo"])
+    fails = SR.concrete_failures(data["desc"], data["algo"], data["policy"], H.cost_unjson(data["costs"]), set(data["flags"]),
+                                 inplace=data.get("prior") == "inplace")
     print(json.dumps([[k, t] for k, t in fails]))
     return 0
 
